@@ -251,7 +251,7 @@ func main() {
 				k    int
 			}
 			const S = 8
-			alpha := []op{{"WriteThrough", 1}, {"WriteThrough", S}, {"WriteThrough", S + 3}, {"Write", 1}, {"FlushFragment", 0}, {"Flush", 0}}
+			alpha := []op{{"WriteThrough", 1}, {"WriteThrough", S}, {"WriteThrough", S + 3}, {"Write", 1}, {"ReadFrom", 2}, {"FlushFragment", 0}, {"Flush", 0}}
 			var hists [][]op
 			var rec func(h []op)
 			rec = func(h []op) {
@@ -295,6 +295,7 @@ func main() {
 								return hd, nil
 							}))
 							var accepted []byte
+							var sticky error
 							pos := 0
 							for i, o := range append(append([]op{}, h...), op{"Flush", 0}) {
 								p := wops.Gen(pos, o.k)
@@ -306,10 +307,22 @@ func main() {
 									n, err = w.WriteThrough(p)
 								case "Write":
 									n, err = w.Write(p)
+								case "ReadFrom":
+									var n64 int64
+									n64, err = w.ReadFrom(bytes.NewReader(p))
+									n = int(n64)
 								case "FlushFragment":
 									err = w.FlushFragment()
 								default:
 									err = w.Flush()
+								}
+								// a flush that failed leaves the writer broken for good: every later write and
+								// flush reports that very error (reader-to-writer copies may still fill the buffer)
+								if sticky != nil && o.kind != "ReadFrom" && err != sticky {
+									return explore.Failf("broken-writer-reports-another-error:"+o.kind, "call %d %v returned %v; the writer had failed with %v", i, o, err, sticky)
+								}
+								if sticky == nil && err != nil && (o.kind == "FlushFragment" || o.kind == "Flush") {
+									sticky = err
 								}
 								if n < 0 || n > len(p) {
 									return explore.Failf("count-out-of-range", "call %d %v: n=%d", i, o, n)
